@@ -79,7 +79,12 @@ def gen_plan(rng, opts=None):
     if rng.random() < 0.2:
         # the server process is descheduled for a while at its n-th seam (answers are late, requests queue up)
         stalls = [[rng.randint(3, 150), rng.choice([300, 2500, 2500, 7000])] for _ in range(rng.choice([1, 1, 2]))]
-    return dict(cap=cap, keys=keys, ops=ops, faults=faults, line=rng.random() < 0.7, reuse=o["reuse"], devshm=devshm, timed_purges=timed, stalls=stalls)
+    plan = dict(cap=cap, keys=keys, ops=ops, faults=faults, line=rng.random() < 0.7, reuse=o["reuse"], devshm=devshm, timed_purges=timed, stalls=stalls)
+    if o.get("rtracker"):
+        # client processes come and go: each has its own multiprocessing resource tracker, which unlinks whatever the process still
+        # had registered when it exits (DESIGN section 12)
+        plan["rtracker"] = True
+    return plan
 
 
 def _payload(key, ci, oi, size):
@@ -328,6 +333,9 @@ def run(plan, ch, want_log=False):
     else:
         cap_eff = cap
     mon = Mon(K, cap_eff)
+    if plan.get("rtracker"):
+        K.cfg["rtracker"] = True
+        K.handlers["proc_exit"].append(fakes.rt_flush)
     if plan.get("line"):
         K.cfg["pool_trace_fn"] = _line_tracer
     ncreate = {"n": 0}
